@@ -117,6 +117,140 @@ func ruleRef6(c *Ctx) []*Ob {
 	return o.list
 }
 
+func init() {
+	register(&Rule{
+		ID: "REF-7",
+		Doc: "Release only what was acquired: a footer built by buildNewFooter / writeSegments carries copies of SegmentLocs whose mmap references are only taken by loadSegments; " +
+			"so in persist and compact a DecRef/Close of that footer must be preceded by, and lie behind the nil-error edge of, loadSegments on the same footer " +
+			"(releasing it earlier unmaps segments of the footer that is still published).",
+		Props: []string{"C06", "C15", "C02"},
+		Floor: 1,
+		Run:   ruleRef7,
+	})
+	register(&Rule{
+		ID: "REF-8",
+		Doc: "Handles are acquired before they are handed out: a function that returns, as a Snapshot or *Footer, a reference-counted object it found in a field or a child map (a shared object, " +
+			"not one it just created) calls addRef/AddRef on it on every path to that return – the caller will Close it.",
+		Props: []string{"C02", "C15"},
+		Floor: 3,
+		Run:   ruleRef8,
+	})
+}
+
+func ruleRef7(c *Ctx) []*Ob {
+	o := newObs(c, "REF-7")
+	load := c.Fn("(*Footer).loadSegments")
+	builders := map[*ssa.Function]bool{c.Fn("(*Store).buildNewFooter"): true, c.Fn("(*Store).writeSegments"): true}
+	for _, fnn := range []string{"(*Store).persist", "(*Store).compact"} {
+		f := c.Fn(fnn)
+		// the footer token: result of a builder call
+		var tok ssa.Value
+		eachInstr(f, func(i ssa.Instruction) {
+			if call, ok := i.(*ssa.Call); ok && builders[call.Call.StaticCallee()] {
+				tok = firstResult(call)
+			}
+		})
+		if tok == nil {
+			o.add(fnn, "footer under construction", c.pos(f.Pos()), false, "anchor lost: no buildNewFooter / writeSegments call")
+			continue
+		}
+		var loads []*ssa.Call
+		for _, k := range callsToFn(f, load) {
+			if sameValue(k.Call.Args[0], tok) {
+				loads = append(loads, k)
+			}
+		}
+		n := 0
+		eachInstr(f, func(i ssa.Instruction) {
+			ci, ok := i.(ssa.CallInstruction)
+			if !ok {
+				return
+			}
+			recv, isRel := isReleaseCall(ci)
+			if !isRel || !sameValue(recv, tok) {
+				return
+			}
+			n++
+			ok2 := false
+			for _, k := range loads {
+				if g, _ := precededAndGuardedBy(f, k, i); g {
+					ok2 = true
+				}
+			}
+			why := "the footer is released only after loadSegments took the mmap references it releases"
+			if !ok2 {
+				why = "the footer under construction is released on a path where loadSegments has not (successfully) run: its SegmentLocs are copies of the published footer's, so the release unmaps segments that are still in use"
+			}
+			o.add(fnn, "release of the new footer after loadSegments", c.instrPos(i), ok2, why)
+		})
+		if n == 0 {
+			o.trivial(fnn, "release of the new footer after loadSegments", c.pos(f.Pos()), "the function never releases the footer it builds")
+		}
+	}
+	return o.list
+}
+
+func ruleRef8(c *Ctx) []*Ob {
+	o := newObs(c, "REF-8")
+	for _, f := range c.Funcs {
+		res := f.Signature.Results()
+		if res.Len() == 0 {
+			continue
+		}
+		rt := res.At(0).Type()
+		tn := typeName(rt)
+		if !(tn == "Snapshot" || tn == "Footer") || typePkgPath(rt) != mossPath {
+			continue
+		}
+		fn := c.fname(f)
+		eachInstr(f, func(i ssa.Instruction) {
+			r, ok := i.(*ssa.Return)
+			if !ok {
+				return
+			}
+			for _, og := range origins(r.Results[0]) {
+				if isNilConst(og) {
+					continue
+				}
+				// shared: loaded from a field, or an element of a child map
+				shared := false
+				if fv, _ := loadedField(og); fv != nil && refCountedType(og.Type()) {
+					shared = true
+				}
+				if m, _, isChild := childKeyOf(og); isChild && m != nil && refCountedType(og.Type()) {
+					shared = true
+				}
+				if !shared {
+					continue
+				}
+				acquired := mustPrecede(f, r, func(j ssa.Instruction) bool {
+					call, isCall := j.(*ssa.Call)
+					if !isCall {
+						return false
+					}
+					sf := call.Call.StaticCallee()
+					if sf == nil || !acquireMethods[sf.Name()] || len(call.Call.Args) == 0 {
+						return false
+					}
+					return sameValue(call.Call.Args[0], og)
+				}, func(from, to *ssa.BasicBlock, cond ssa.Value, onTrue bool) bool {
+					// the `x == nil` / `!exists` edges: nothing is handed out
+					if b, isB := cond.(*ssa.BinOp); isB && (b.Op == token.EQL || b.Op == token.NEQ) && isNilConst(b.Y) && sameValue(b.X, og) {
+						return (b.Op == token.EQL) == onTrue
+					}
+					return false
+				})
+				why := "the shared object is addRef'ed before it is returned"
+				if !acquired {
+					why = "a shared reference-counted object (" + accessPath(og) + ") is handed out without taking a reference: the caller's Close() releases a reference that belongs to the container, and later readers find the object torn down"
+				}
+				o.add(fn, "returned handle "+accessPath(og)+" is acquired", c.instrPos(r), acquired, why)
+			}
+		})
+	}
+	return o.list
+}
+
 func isReleaseCall(ci ssa.CallInstruction) (ssa.Value, bool) {
 	cc := ci.Common()
 	name := ""
